@@ -6,7 +6,8 @@ export GOFLAGS=-mod=mod GOPROXY=off GOSUMDB=off GOTOOLCHAIN=local
 mkdir -p .work evidence replays extract/bin harness/bin
 (cd extract && go build -o bin/extract .)
 ./extract/bin/extract -repo "${VERIF_REPO:-/repo}" -out lean/Mcp/Gen
-(cd lean && lake build Mcp mcpdrv)
+DRVS=$(python3 checklib/mkmain.py | sed -n 's/^drivers: //p')
+(cd lean && lake build Mcp $DRVS)
 cp /repo/go.sum harness/go.sum
-(cd harness && go build -tags verif -o bin/harness .)
+(cd harness && for d in cmd/*/; do n=$(basename $d); go build -tags verif -o bin/$n ./cmd/$n; done)
 echo "setup ok"
